@@ -16,7 +16,7 @@ from ..numpy_utils import (
     _numpy_cache_blocklist,
 )
 from ..utils import AbstractTypeResolver
-from .synced_collection import SyncedCollection, _sc_resolver
+from .synced_collection import SyncedCollection, _same_data, _sc_resolver
 
 # Identifies sequences, which are the base type for this class.
 _sequence_resolver = AbstractTypeResolver(
@@ -143,7 +143,7 @@ class SyncedList(SyncedCollection, MutableSequence):
                 # inserting at the beginning will require reconverting all
                 # elements of the data.
                 for i in range(min(len(self), len(data))):
-                    if data[i] == self._data[i]:
+                    if _same_data(data[i], self._data[i]):
                         continue
                     # None is a value here (JSON null), not "no data".
                     if (
